@@ -50,7 +50,7 @@ TRUSTED = [
 ]
 ASSUMPTIONS = ["same interpreter, same numpy/networkx versions in all compared processes",
                "models are seeded (seed= or rng= given); unseeded models are outside the property"]
-RULE = ("specs = nine bundled example models + generated API programs (7 space kinds x 12 stochastic op codes x 4 seed/rng forms); "
+RULE = ("specs = nine bundled example models + generated API programs (7 space kinds x 12 stochastic op codes x 5 seed/rng forms (int seed, rng int / SeedSequence / Generator, a str seed numpy rejects)); "
         "each spec is executed in-process, in-process after 2 unrelated warm-up programs, and in subprocesses with PYTHONHASHSEED "
         "0, 1 and 4242 (thorough: also 'random'); non-trivial = the per-step digest changed at least twice during the run; distinct by spec")
 
@@ -166,7 +166,7 @@ def gen_tables():
 OPS = ["shuffle_do", "do", "shuffle_inplace", "select_frac", "select_rich", "groupby", "create", "remove", "by_type", "np_rng",
        "cell_agents", "sort"]
 GRIDS = ["moore", "vn", "hex", "network", "network_str", "single", "multi", "none"]
-FORMS = ["seed", "rng_int", "rng_seq", "rng_gen"]
+FORMS = ["seed", "rng_int", "rng_seq", "rng_gen", "seed_str"]
 
 
 def rand_seed(R):
